@@ -138,8 +138,11 @@ func c17(c *Ctx) {
 					good := t2 != nil && string(projWrap(t2)) == string(projWrap(&wt))
 					c.Check(good, "Unmarshal(Marshal(t)) = t", "wrap:roundtrip", "", inp)
 					if t2 != nil {
+						mb0 := append([]byte{}, mb...)
+						before := string(projWrap(t2))
 						ok, _ := t2.Verify(key, usage)
 						c.Check(ok, "decoded token verifies under the same key and usage", "wrap:verify-own", "", inp)
+						c.Check(string(mb0) == string(mb) && before == string(projWrap(t2)), "Verify leaves the token and the bytes it was decoded from untouched", "wrap:verify-modifies", "", inp)
 					}
 				} else {
 					c.Check(t2 == nil, "Unmarshal rejects the unexpected direction", "wrap:direction", "", inp)
